@@ -115,8 +115,10 @@ class RxStim:
     def set_speed(self, speed):
         self.speed = speed
 
-    def packet(self, octets, gap_prob=0.0, cut=None, gap_after=None):
-        """Present `octets` (cut short after `cut` bytes if given), with random one/two-cycle rx_valid gaps."""
+    def packet(self, octets, gap_prob=0.0, cut=None, gap_after=None, gaps=None, tail=None):
+        """Present `octets` (cut short after `cut` bytes if given).  rx_valid gaps: random one/two-cycle gaps
+        with probability gap_prob, or exactly gaps[i] cycles before byte i; `tail` = cycles with rx_active still
+        high (rx_valid low) after the last byte."""
         while self.quiet < MIN_GAP:
             self.idle()
         rng = self.rng
@@ -125,15 +127,82 @@ class RxStim:
         for i, b in enumerate(octets):
             if cut is not None and i >= cut:
                 break
-            if gap_prob and rng.random() < gap_prob:
-                for _ in range(rng.choice([1, 1, 2])):
-                    self._emit(1, 0, rng.choice([0xE1, 0xD2, b, rng.randrange(256)]))
+            if gaps is not None:
+                ng = gaps[i]
+            else:
+                ng = rng.choice([1, 1, 2]) if gap_prob and rng.random() < gap_prob else 0
+            for _ in range(ng):
+                # rx_data is a don't-care in a gap: make it look like something interesting
+                self._emit(1, 0, rng.choice([0xE1, 0xD2, 0x5A, b, rng.randrange(256)]))
             self._emit(1, 1, b)
             sent.append(b)
-        if gap_prob and rng.random() < gap_prob / 2:
-            self._emit(1, 0, rng.randrange(256))         # trailing cycles with rx_active still high
+        if tail is None:
+            tail = 1 if gap_prob and rng.random() < gap_prob / 2 else 0
+        for _ in range(tail):
+            self._emit(1, 0, rng.choice([0xD2, 0x96, rng.randrange(256)]))   # rx_active tail
         self.packets.append((sent, self.addr))
         self.idle(MIN_GAP if gap_after is None else max(1, gap_after))
+
+
+HS_BYTES = (0xD2, 0x5A, 0x1E, 0x96)
+
+
+def gap_patterns(n, all_lengths):
+    """Every subset of the byte positions 0..n-1 that is preceded by an rx_valid gap, with gap lengths 1..4
+    (every length for every subset if all_lengths, else cycling through them), plus rx_active tails 0..2."""
+    out = []
+    k = 0
+    for mask in range(1 << n):
+        lens = (1, 2, 3, 4) if (all_lengths and mask) else ((1 + k % 4,) if mask else (0,))
+        for g in lens:
+            out.append(([g if mask >> i & 1 else 0 for i in range(n)], k % 3))
+            k += 1
+    return out
+
+
+def multi_byte_packets(rng, mode, n, count):
+    """Packets of n >= 2 bytes that must not produce an event although their later / last bytes look like
+    (or nearly like) a complete packet of their own: the detector must keep ignoring them until rx_active falls."""
+    pkts = []
+    near = [b ^ (1 << rng.randrange(8)) for b in HS_BYTES] + [0x00, 0xC3, 0xE1]
+    for j in range(count):
+        first = [HS_BYTES[j % 4], 0xE1, 0xA5, 0xC3, 0x4B, HS_BYTES[j % 4] ^ 0x10, 0x2D, 0xB4][j % 8]
+        if mode == "token" and n >= 4:
+            # ... + a complete, correctly addressed token / SOF as the tail of a longer packet
+            tok = token_octets(rng.choice(TOKEN_PIDS + ("SOF",)), rng.randrange(2048))
+            body = [rng.choice(list(HS_BYTES) + near + [rng.randrange(256)]) for _ in range(n - 4)]
+            pkts.append(([first] + body + tok, (tok[1] | (tok[2] << 8)) & 0x7F))
+            continue
+        mid = [rng.choice(list(HS_BYTES) + near + [rng.randrange(256)]) for _ in range(n - 2)]
+        last = HS_BYTES[(j // 2) % 4] if j % 3 else rng.choice(near)
+        pkts.append(([first] + mid + [last], None))
+    return pkts
+
+
+def multi_byte_section(rng, mode, run, quick):
+    """Short multi-byte packets x exhaustive rx_valid gap patterns (see gap_patterns)."""
+    counts = {2: 16, 3: 12, 4: 10, 5: 8} if quick else {2: 48, 3: 48, 4: 32, 5: 24}
+    directed = [([0xD2, 0x00, 0x00, 0xD2], [0, 1, 1, 1]), ([0xA5, 0x11, 0x5A], [0, 4, 4]),
+                ([0xC3, 0x01, 0x02, 0x96], [0, 0, 2, 1]), ([0xC3, 0x1E], [0, 3]), ([0xF2, 0xD2], [0, 1])]
+    st = RxStim(rng, addr=rng.randrange(128))
+    npk = 0
+    for octets, gaps in directed:
+        for tail in (0, 1, 2):
+            st.packet(octets, gaps=gaps, tail=tail)
+    for n in (2, 3, 4, 5):
+        pats = gap_patterns(n, all_lengths=(n <= 3 or not quick))
+        for octets, own in multi_byte_packets(rng, mode, n, counts[n]):
+            if own is not None and mode == "token":
+                st.set_addr(own)
+            for gaps, tail in pats:
+                st.packet(octets, gaps=gaps, tail=tail)
+                npk += 1
+                if npk % 40 == 0:
+                    st.idle(LAT + 2)
+                    run(st.steps, "multi-byte-gap-sweep", st)
+                    st = RxStim(rng, addr=st.addr)
+    st.idle(LAT + 2)
+    run(st.steps, "multi-byte-gap-sweep", st)
 
 
 TOKEN_PIDS = ("OUT", "IN", "SETUP", "PING")
@@ -429,6 +498,8 @@ def check_C01(rep):
         st.idle(rng.randint(0, 4))
     st.idle(LAT + 2)
     run(st.steps, "pid-byte-corruptions-and-lengths", st)
+    # (B) longer packets whose tail is a complete, correctly addressed token / SOF, every rx_valid gap pattern
+    multi_byte_section(rng, "token", run, quick)
     # (B) random soups, changing address; all 128 addresses in the thorough tier
     pool = list(range(128)) if not quick else [0, 1, 0x3A, 0x40, 0x55, 0x7F, rng.randrange(128), rng.randrange(128)]
     for _ in range(14 if quick else 300):
@@ -559,6 +630,8 @@ def check_C04(rep):
                 st = RxStim(rng)
     st.idle(LAT + 2)
     rec = run(st.steps, "all-pid-bytes", st)
+    # packets of 2..5 bytes whose later / last bytes are handshake PID bytes (or near misses), every rx_valid gap pattern
+    multi_byte_section(rng, "handshake", run, quick)
     for _ in range(8 if quick else 200):
         st = random_soup(rng, "handshake", 30, [0], fixed_addr=0)
         run(st.steps, "random-soup", st)
